@@ -108,6 +108,13 @@ def grouping(chk, rng):
                     a = np.array([rng.randint(0, np.iinfo(dt).max) for _ in range(int(np.prod(shp)))], dtype=dt).reshape(shp)
                     cases.append({'kind': 'hw', 'flat': [int(x) for x in a.reshape(-1)], 'shape': list(shp), 'axis': axis, 'k': k})
                     arrays.append((a, dt))
+    # long groups of heavy words: group totals of 256 and more (32 bytes of 0xFF, 16 words of 0xFFFF), next to totals just below
+    for shp, axis, k, dt, fill in (((64,), 0, 32, 'uint8', 255), ((2, 33), 1, 32, 'uint8', 255), ((2, 34), 1, 17, 'uint16', 65535), ((40, 2), 0, 33, 'uint8', 254), ((3, 16), 1, 16, 'uint16', 65535)):
+        a = np.full(shp, fill, dtype=dt)
+        a.flat[1] = 0
+        a.flat[-1] = 1
+        cases.append({'kind': 'hw', 'flat': [int(x) for x in a.reshape(-1)], 'shape': list(shp), 'axis': axis, 'k': k})
+        arrays.append((a, dt))
     path = dh.write_json(cases)
     import os
     try:
@@ -176,7 +183,7 @@ def disc_compare(chk, flat, shape, rec, key):
 
 def discriminants(chk, rng):
     shape = [2, 2] if chk.tier == 'quick' else [2, 3]
-    r = tlc.run('ModelsEnum', cfg_text=tlc.cfg(constants={'Mode': 'disc', 'MaxVal': 0}, invariants=['Emit']), defs={'Shape': tlc.tla(shape), 'Vals': '{-2, -1, 0, 1, 2, 90, -90}' if chk.tier == 'quick' else '{-1, 0, 2, 90, -90}'}, workers=1)
+    r = tlc.run('ModelsEnum', cfg_text=tlc.cfg(constants={'Mode': 'disc', 'MaxVal': 0}, invariants=['NaNPaddingIrrelevant', 'Emit']), defs={'Shape': tlc.tla(shape), 'Vals': '{-2, -1, 0, 1, 2, 90, -90}' if chk.tier == 'quick' else '{-1, 0, 2, 90, -90}'}, workers=1)
     chk.add_tlc(f'GEN:every array of shape {shape} over a few finite values u NaN u +-infinity', r)
     for i, e in enumerate(r.emits()):
         disc_compare(chk, e['arr'], shape, e['disc'], i)
@@ -195,6 +202,38 @@ def discriminants(chk, rng):
     for e in r2.emits():
         c = cases[e['case'] - 1]
         disc_compare(chk, c['flat'], c['shape'], e['res']['disc'], 100000 + e['case'])
+        chk.traces_validated += 1
+    # large arrays (beyond any internal blocking), by the two lemmas of the specification: NaN padding is irrelevant, a lane is reduced on its own
+    import scared
+    import warnings
+    big = 0
+    for e in r2.emits():
+        c = cases[e['case'] - 1]
+        if len(c['shape']) != 2 or big >= (6 if chk.tier == 'quick' else 40):
+            continue
+        big += 1
+        rws, cls_ = c['shape']
+        small = to_arr(c['flat'], c['shape'])
+        # (a) long lanes: the c values of every row spread over 30000 positions, everything else NaN (the first 12000 positions entirely)
+        wide = np.full((rws, 30000), np.nan)
+        pos = [12000 + 700 * j + 13 * big for j in range(cls_)]
+        wide[:, pos] = small
+        # (b) very many short lanes: the rows repeated cyclically 70000 times
+        tall = small[np.arange(70000) % rws]
+        for n, name in enumerate(NAMES):
+            with warnings.catch_warnings():
+                warnings.simplefilter('ignore')
+                got_w = [np.asarray(getattr(scared, name)(wide, axis=ax_)) for ax_ in (1, -1)]
+                got_t = np.asarray(getattr(scared, name)(tall, axis=1))
+                got_tt = np.asarray(getattr(scared, name)(tall.T.copy(), axis=0))
+            want = to_arr(e['res']['disc'][1][n], [rws])
+            chk.count(('disc-large', e['case'], name), nontrivial=True)
+            ok = all(g.shape == want.shape and np.array_equal(g, want, equal_nan=True) for g in got_w) and np.array_equal(got_t, want[np.arange(70000) % rws], equal_nan=True) \
+                and np.array_equal(got_tt, want[np.arange(70000) % rws], equal_nan=True)
+            if not ok:
+                chk.violation(f'{name}:reduces exactly the requested axis with NaN entries ignored (large arrays)', {'property': 'C15', 'part': 'disc', 'name': name, 'small_array': small.tolist(), 'expected_per_row': want.tolist(),
+                                                                                                                      'got_long_lanes': got_w[0].tolist(), 'got_many_lanes_first': got_t[:rws].tolist()},
+                              f'{name} on a {wide.shape} / {tall.shape} presentation of {small.tolist()}: got {got_w[0].tolist()} / {got_t[:rws].tolist()} expected {want.tolist()}')
         chk.traces_validated += 1
     chk.sample({'discriminant_case': cases[0]})
 
